@@ -1,6 +1,7 @@
 """C13 — Processor streams deliver every output exactly once and in order."""
 import json
 import re
+import time
 
 ID = "C13"
 HARNESS_PKG = "h_c13"
@@ -8,7 +9,9 @@ COQ_IMPORTS = "From PV Require Import Model.Processors Oracle.C13."
 FINDING = "composed_second_process_cancelled"
 TECHNIQUE = ("Coq proof over a labelled transition system of Buffer / ComposedProcessors / ProcessorStream (invariant by induction over "
              "the label list = every schedule, every cancellation of next()) + refinement check: the event trace observed on the real "
-             "code (real tokio select!/wake-ups, scripted yield-count delays) is replayed on the Gallina model")
+             "code (real tokio select!/wake-ups/cooperative budget, scripted yield-count delays, processors waiting on Notify, tokio mpsc "
+             "or tokio semaphores, bursts of several hundred items) is replayed on the Gallina model, every observed drop of an item "
+             "must be a drop the model allows at that point")
 LEVEL_TEXT = ("Proved in Coq for every schedule (label list), every number of layers and every processor effect function: "
               "C13_exactly_once_in_order_safe / C13_fifo_preserved_safe (layers with cancel-safe next(): single processors, and composed "
               "ones whose second.process never suspends — each layer delivers exactly the sequential run of its processors on what it "
@@ -16,9 +19,12 @@ LEVEL_TEXT = ("Proved in Coq for every schedule (label list), every number of la
               "schedule without an item-dropping Recv), C13_loss_accounting (an intermediate item can disappear only with a next() future "
               "dropped during the hand-over), C13_prefix_any_time (at every reachable state of a loss-free run a layer's emitted next()-outputs are a prefix of the sequential result: never a duplicate, never out of order), C13_progress (non-quiescent states have an enabled step), C13_composed_refuted (witness "
               "schedule: ComposedProcessors with a suspending second.process loses an item). Tie to the code: harness-defined processors "
-              "(FIFO, group-reversing, failing in process/next, per-item yield-count delays) on the real Buffer, ComposedProcessors, "
+              "(FIFO, group-reversing = bursts of up to 300 outputs ready at once, failing in process/next, per-item yield-count delays, "
+              "output queues behind Notify / tokio mpsc / tokio Semaphore so that next() consumes tokio's cooperative budget, process() "
+              "optionally behind a tokio Mutex) on the real Buffer, ComposedProcessors, "
               "PipelineBuilder and layered ProcessorStreams; the observed event trace must be a trace of the model ending quiescent with the "
-              "same dropped items, and the oracle (= the theorem's predicate) is evaluated on the observed per-layer outputs.")
+              "same dropped items (items carry a destructor guard: a drop is observed where it happens and must be allowed by the model "
+              "there), and the oracle (= the theorem's predicate) is evaluated on the observed per-layer outputs.")
 LEVEL_NOTE = ("PARTIAL: tokio's select! (any ready branch may win, losers dropped), unbounded mpsc, Notify and wake-ups are modelled as stated, "
               "not verified; delays are abstracted to 'label not yet taken'; termination of every schedule is not proved (progress only); "
               "compositions deeper than two processors per Buffer are not modelled. Known finding (open): ComposedProcessors::next drops "
@@ -26,12 +32,16 @@ LEVEL_NOTE = ("PARTIAL: tokio's select! (any ready branch may win, losers droppe
 ASSUMPTIONS = ["tokio select!: a ready branch wins, the other future is dropped before the handler runs (modelled)",
                "tokio unbounded mpsc is FIFO and loss-free; Notify/yield_now wake-ups are not lost (modelled; exercised by the idle check of every run)",
                "processors behave as an effect function applied when process() completes, and their own next() dequeues and returns within one poll (true of the harness processors, Ingest, LogPrune)",
+               "tokio's cooperative budget: an operation on a tokio resource (mpsc recv, semaphore/mutex acquire, consume_budget) may return Pending although the resource is ready; nothing else is assumed about when (modelled as: such a process() 'may suspend'; a next() suspended there holds no item)",
                "at most two processors are composed behind one Buffer"]
 TRUSTED = ["modelled not verified: tokio select!/mpsc/Notify semantics, the glue between layers (Ok items forwarded, errors leave the chain)",
            "trace instrumentation lives in the harness-defined processors / source / glue closures (the anchored code is unmodified, no hook needed)"]
 RULE = ("random streams of 1..3 layers (single or two composed processors per Buffer; FIFO / reverse-groups-of-k; process and next failures; "
-        "per-item process delays, next delays, arrival gaps, consumer pauses all counted in yield_now) over 1..8 (quick) / 1..16 (thorough) "
-        "distinct inputs; quick 170 random + 33 directed, thorough 800 + 66; non-trivial = at least two inputs entered before the first "
+        "per-item process delays, next delays, arrival gaps, consumer pauses all counted in yield_now; output queues on Notify / tokio mpsc / "
+        "tokio Semaphore, process behind a tokio Mutex) over 1..8 (quick) / 1..16 (thorough) distinct inputs; quick 170 random + 33 directed, "
+        "thorough 800 + 66; plus budget-burst cases (quick 12, thorough 48): 200..300 (thorough ..600) inputs arriving back to back while outputs "
+        "are pulled, group sizes 70..300 so that far more than tokio's 128-unit cooperative budget of work is ready in one poll, budgeted "
+        "next() in the bursting stage, shapes C / S / SC / CS / CC / SS; non-trivial = at least two inputs entered before the first "
         "output left, or an item was dropped, or a failure output occurred")
 COQ_SHARD = 40
 REGISTERED = True
@@ -43,6 +53,14 @@ NONTRIVIAL_FLOOR = 20
 # ------------------------------------------------------------------------------------------------
 
 def _pcfg(rng, values, tag, slow_ok=True):
+    p = _pcfg0(rng, values, tag, slow_ok)
+    # how next() waits (0 Notify, 1 tokio mpsc, 2 tokio Semaphore) / process behind a tokio Mutex
+    p["qm"] = rng.choice([0, 0, 1, 2])
+    p["pm"] = 1 if rng.random() < 0.15 else 0
+    return p
+
+
+def _pcfg0(rng, values, tag, slow_ok=True):
     grp = 1 if rng.random() < 0.65 else rng.choice([2, 3])
     nd = rng.choice([0, 0, 1, 2])
     perrs = sorted(v for v in values if rng.random() < 0.08)
@@ -81,8 +99,78 @@ def _case(rng, maxn, force=None):
     return {"layers": layers, "inputs": inputs, "gaps": gaps, "cgaps": cgaps}
 
 
-def _p(tag, pdel, grp=1, nd=0, perrs=(), nerrs=()):
-    return {"tag": tag, "grp": grp, "nd": nd, "perrs": list(perrs), "nerrs": list(nerrs), "pdel": list(pdel)}
+def _p(tag, pdel, grp=1, nd=0, perrs=(), nerrs=(), qm=0, pm=0):
+    return {"tag": tag, "grp": grp, "nd": nd, "perrs": list(perrs), "nerrs": list(nerrs), "pdel": list(pdel), "qm": qm, "pm": pm}
+
+
+# Budget bursts.  tokio gives every task 128 units of cooperative budget per poll; every operation on
+# a tokio resource (mpsc recv, semaphore/mutex acquire, consume_budget) takes one and returns Pending
+# once they are used up.  A group-reversing processor with a large group releases that many outputs
+# at once, so the Buffer task has far more than 128 units of work ready in one poll while the
+# source keeps delivering inputs and the consumer keeps pulling: every await point on a tokio
+# resource becomes a real suspension point somewhere in the burst.
+_BURST_SHAPES = ["C", "C", "C", "SC", "CS", "CC", "S", "SS"]
+_BURST_GROUPS = [70, 96, 127, 128, 150, 200, 260, 300]
+
+
+def _burst_layer(rng, kind, tag, n, unsafe):
+    g = rng.choice([x for x in _BURST_GROUPS if x <= max(70, n // 2)])
+    # the bursting stage: next() mostly without a scripted yield (a yield per next() call would cut the
+    # burst into one item per poll), always on a budgeted tokio resource
+    first = _p(tag, [0] if rng.random() < 0.7 else [0, 0, 1], grp=g, nd=0 if rng.random() < 0.85 else 1,
+               qm=rng.choice([1, 2]), pm=1 if rng.random() < 0.25 else 0)
+    if kind == "S":
+        return {"kind": "S", "p": [first]}, tag
+    t2 = 10 * tag
+    second = _p(t2, [0], grp=rng.choice([1, 1, 1, 2, 3]), nd=rng.choice([0, 1, 1, 2]), qm=rng.choice([0, 1, 2]))
+    if unsafe:
+        if rng.random() < 0.5:
+            second["pm"] = 1
+        else:
+            second["pdel"] = [0, 1]
+    return {"kind": "C", "p": [first, second]}, tag + t2
+
+
+def _burst_case(rng, tier, shape=None, unsafe=False):
+    n = rng.randint(200, 300 if tier == "quick" else 600)
+    shape = shape or rng.choice(_BURST_SHAPES)
+    layers, base = [], 0
+    for k, kind in enumerate(shape):
+        tag = 1000 * (100 ** k)
+        l, add = _burst_layer(rng, kind, tag, n, unsafe and kind == "C")
+        if k > 0 and kind == "S" and rng.random() < 0.5:
+            # downstream single layer without a burst of its own: plain FIFO stage fed one item per poll
+            l["p"][0]["grp"] = 1
+        layers.append(l)
+        base += add
+    inputs = list(range(1, n + 1))
+    if rng.random() < 0.3:
+        rng.shuffle(inputs)
+    # a few failures in the first layer (values of the inputs themselves)
+    p0 = layers[0]["p"][0]
+    if rng.random() < 0.4:
+        p0["perrs"] = sorted(rng.sample(inputs, 2))
+    if rng.random() < 0.4:
+        p0["nerrs"] = sorted(rng.sample([x for x in inputs if x not in p0["perrs"]], 2))
+    gaps = rng.choice([[0], [0], [0], [0, 0, 1], [1]])
+    cgaps = rng.choice([[0], [0], [0, 1], [0, 0, 2]])
+    return {"layers": layers, "inputs": inputs, "gaps": gaps, "cgaps": cgaps}
+
+
+def _bursts(tier, rng):
+    out = []
+    n = 200 if tier == "quick" else 300
+    xs = list(range(1, n + 1))
+    # directed: composed, first stage bursts through a tokio channel / semaphore, second stage slow to hand out
+    for qm, nd2, g in ((1, 1, 128), (2, 0, 90), (1, 2, 70), (2, 1, 127)) if tier == "quick" else ((1, 1, 128), (2, 0, 90), (1, 2, 70), (2, 1, 127), (1, 0, 150)):
+        out.append({"layers": [{"kind": "C", "p": [_p(1000, [0], grp=g, qm=qm), _p(10000, [0], nd=nd2)]}], "inputs": xs, "gaps": [0], "cgaps": [0]})
+    shapes = ["C", "SC", "CS", "CC", "S", "C", "C"] if tier == "quick" else _BURST_SHAPES * 5
+    for sh in shapes:
+        out.append(_burst_case(rng, tier, shape=sh))
+    # outside the safe class as well (second.process behind a tokio Mutex or yielding): known finding territory
+    for _ in range(1 if tier == "quick" else 3):
+        out.append(_burst_case(rng, tier, shape="C", unsafe=True))
+    return out
 
 
 def _directed(tier):
@@ -104,6 +192,8 @@ def _directed(tier):
 def gen(tier, rng):
     for c in _directed(tier):
         yield c
+    for c in _bursts(tier, rng):
+        yield c
     nrand, maxn = (170, 8) if tier == "quick" else (800, 16)
     for i in range(nrand):
         yield _case(rng, maxn, force="C" if i % 5 == 0 else None)
@@ -118,7 +208,8 @@ def _lst(xs):
 
 
 def _hp(p):
-    return "%d:%d:%d:%s:%s:%s" % (p["tag"], p["grp"], p["nd"], _lst(p["perrs"]), _lst(p["nerrs"]), _lst(p["pdel"]))
+    return "%d:%d:%d:%s:%s:%s:%d:%d" % (p["tag"], p["grp"], p["nd"], _lst(p["perrs"]), _lst(p["nerrs"]), _lst(p["pdel"]),
+                                      p.get("qm", 0), p.get("pm", 0))
 
 
 def harness_line(case):
@@ -131,7 +222,8 @@ def _nl(xs):
 
 
 def _cp(p):
-    return "(mkP %d%%N %s %s %d [%s])" % (p["tag"], _nl(p["perrs"]), _nl(p["nerrs"]), p["grp"], ";".join(map(str, p["pdel"])))
+    return "(mkP %d%%N %s %s %d [%s] %s)" % (p["tag"], _nl(p["perrs"]), _nl(p["nerrs"]), p["grp"], ";".join(map(str, p["pdel"])),
+                                          "true" if p.get("pm", 0) else "false")
 
 
 def _ccfg(case):
@@ -167,36 +259,41 @@ class Obs:
         self.emits = [[] for _ in range(nl)]
         self.pulled = []
         self.lost = [[] for _ in range(nl)]
+        self.vanished = []          # tokens destroyed anywhere else (inputs, outputs): never allowed
         for e in self.events:
             m = re.match(r"^([A-Z])(\d*):(.+)$", e)
             if not m:
                 raise ValueError("bad event " + e)
             k, lay, v = m.group(1), m.group(2), m.group(3)
             if k == "Y":
-                self.labels.append("Yield (%s)" % _cout(v))
+                self.labels.append("EL (Yield (%s))" % _cout(v))
                 self.emits[nl - 1].append(v)
                 continue
             lay = int(lay)
             d = nl - 1 - lay
             if k == "P":
-                self.labels.append("L %d (Pull (%s))" % (d, _cout(v)))
+                self.labels.append("EL (L %d (Pull (%s)))" % (d, _cout(v)))
                 if lay == 0:
                     self.pulled.append(int(v[2:]))
                 else:
                     self.emits[lay - 1].append(v)
             elif k == "R":
-                self.labels.append("L %d (Recv %d%%N)" % (d, int(v)))
+                self.labels.append("EL (L %d (Recv %d%%N))" % (d, int(v)))
             elif k == "E":
-                self.labels.append("L %d (ProcEnd %d%%N)" % (d, int(v)))
+                self.labels.append("EL (L %d (ProcEnd %d%%N))" % (d, int(v)))
             elif k == "X":
                 comp = case["layers"][lay]["kind"] == "C"
-                self.labels.append("L %d (%s (%s))" % (d, "Hand" if comp else "Next", _cres(v)))
+                self.labels.append("EL (L %d (%s (%s)))" % (d, "Hand" if comp else "Next", _cres(v)))
             elif k == "N":
-                self.labels.append("L %d (Next (%s))" % (d, _cres(v)))
+                self.labels.append("EL (L %d (Next (%s)))" % (d, _cres(v)))
             elif k == "F":
-                self.labels.append("L %d (HandEnd %d%%N)" % (d, int(v)))
+                self.labels.append("EL (L %d (HandEnd %d%%N))" % (d, int(v)))
             elif k == "D":
+                # an intermediate item was destroyed: the model must allow a drop exactly here
+                self.labels.append("ED %d %d%%N" % (d, int(v)))
                 self.lost[lay].append(int(v))
+            elif k == "Z":
+                self.vanished.append((lay, int(v)))
             else:
                 raise ValueError("bad event " + e)
         self.lost_flat = [x for l in self.lost for x in l]
@@ -220,6 +317,7 @@ def coq_model(case):
 
 _PENDING = {}
 _CONF = {}
+HEAVY_CHARS = 12000
 
 
 def _key(case, impl):
@@ -247,9 +345,27 @@ def conformance(case, impl):
             except Exception:
                 _CONF[k] = "UNPARSABLE"
                 return _CONF[k]
-        res, errs = core.coq_eval(COQ_IMPORTS, [e for _, e in todo], "c13conf", shard=COQ_SHARD)
-        for (kk, _e), r in zip(todo, res):
-            _CONF[kk] = r if r is not None else "EVAL-FAILED"
+        # long traces (bursts) cost seconds each: one coqtop per trace, the short ones in batches
+        heavy = [t for t in todo if len(t[1]) > HEAVY_CHARS]
+        light = [t for t in todo if len(t[1]) <= HEAVY_CHARS]
+
+        def run(part, shard, tag):
+            if not part:
+                return
+            t0 = time.time()
+            res, errs = core.coq_eval(COQ_IMPORTS, [e for _, e in part], tag, shard=shard, timeout=1800)
+            for (kk, _e), r in zip(part, res):
+                _CONF[kk] = r if r is not None else "EVAL-FAILED"
+            core.log("C13 trace replay on the model: %d %s traces in %.1fs; not accepted: %s" % (
+                len(part), "long" if shard == 1 else "short", time.time() - t0,
+                sorted({_CONF[kk] for kk, _e in part if _CONF[kk] != "OK"})[:6] or "none"))
+
+        from concurrent.futures import ThreadPoolExecutor
+        with ThreadPoolExecutor(max_workers=2) as ex:
+            fs = [ex.submit(run, heavy, 1, "c13confh"),
+                  ex.submit(run, light, max(8, min(COQ_SHARD, len(light) // 15 + 1)), "c13conf")]
+            for f in fs:
+                f.result()
     return _CONF[k]
 
 
@@ -261,6 +377,8 @@ def agree(case, impl, model):
         o = Obs(case, impl)
     except Exception:
         return False
+    if o.vanished:
+        return False
     if conformance(case, impl) != "OK":
         return False
     if o.lost_flat:
@@ -269,7 +387,10 @@ def agree(case, impl, model):
 
 
 def _unsafe_layers(case):
-    return [k for k, l in enumerate(case["layers"]) if l["kind"] == "C" and any(d > 0 for d in l["p"][1]["pdel"])]
+    """Composed layers whose second.process may suspend (= not safe_cfg of the model): it yields, or it
+    passes a tokio resource that is subject to the cooperative budget."""
+    return [k for k, l in enumerate(case["layers"])
+            if l["kind"] == "C" and (any(d > 0 for d in l["p"][1]["pdel"]) or l["p"][1].get("pm", 0))]
 
 
 def known(case, impl):
@@ -279,7 +400,7 @@ def known(case, impl):
         return None
     uns = _unsafe_layers(case)
     hit = [k for k in range(len(o.lost)) if o.lost[k]]
-    if hit and all(k in uns for k in hit):
+    if hit and all(k in uns for k in hit) and not o.vanished:
         return FINDING
     return None
 
@@ -302,10 +423,17 @@ def nontrivial(case, impl):
 
 def shrink(case):
     xs = case["inputs"]
-    for i in range(len(xs)):
-        c = json.loads(json.dumps(case))
-        c["inputs"] = xs[:i] + xs[i + 1:]
-        yield c
+    if len(xs) > 40:
+        # long bursts fail by chance (tokio's select order): try a few big cuts, not every element
+        for a, b in ((0, len(xs) // 2), (len(xs) // 2, len(xs)), (0, len(xs) // 4), (3 * len(xs) // 4, len(xs))):
+            c = json.loads(json.dumps(case))
+            c["inputs"] = xs[:a] + xs[b:]
+            yield c
+    else:
+        for i in range(len(xs)):
+            c = json.loads(json.dumps(case))
+            c["inputs"] = xs[:i] + xs[i + 1:]
+            yield c
     if len(case["layers"]) > 1:
         for i in range(len(case["layers"])):
             c = json.loads(json.dumps(case))
@@ -313,8 +441,8 @@ def shrink(case):
             yield c
     for i, l in enumerate(case["layers"]):
         for j, p in enumerate(l["p"]):
-            for f, v in (("perrs", []), ("nerrs", []), ("grp", 1), ("nd", 0)):
-                if p[f] != v:
+            for f, v in (("perrs", []), ("nerrs", []), ("grp", 1), ("nd", 0), ("qm", 0), ("pm", 0)):
+                if p.get(f, v) != v:
                     c = json.loads(json.dumps(case))
                     c["layers"][i]["p"][j][f] = v
                     yield c
@@ -327,6 +455,8 @@ def shrink(case):
 
 def distribution(cases, impl):
     shapes, lossy, unsafe, nin, tl, errs = {}, 0, 0, [], [], 0
+    bursts = sum(1 for c in cases if len(c["inputs"]) >= 150)
+    budgeted = sum(1 for c in cases if any(p.get("qm", 0) or p.get("pm", 0) for l in c["layers"] for p in l["p"]))
     for i, c in enumerate(cases):
         s = "".join(l["kind"] for l in c["layers"])
         shapes[s] = shapes.get(s, 0) + 1
@@ -345,4 +475,5 @@ def distribution(cases, impl):
                 errs += 1
     return {"shapes": dict(sorted(shapes.items())), "cases_outside_safe_class": unsafe, "runs_with_dropped_item": lossy,
             "runs_with_failure_outputs": errs, "max_inputs": max(nin), "mean_inputs": round(sum(nin) / len(nin), 1),
-            "mean_trace_len": round(sum(tl) / max(1, len(tl)), 1), "max_trace_len": max(tl or [0])}
+            "mean_trace_len": round(sum(tl) / max(1, len(tl)), 1), "max_trace_len": max(tl or [0]),
+            "budget_burst_cases": bursts, "cases_with_budgeted_tokio_resources": budgeted}
